@@ -76,6 +76,36 @@ class Ctx:
                 raise AnalysisError('anchor vanished: rule %s matched %d instances, floor %d' % (rule, n, n_min))
 
 
+class SubCtx:
+    """Collects the obligations of another property's rule so that a dependent property can re-emit the ones it relies on."""
+
+    def __init__(self, ctx):
+        self.ctx = ctx
+        self.prog = ctx.prog
+        self.tier = ctx.tier
+        self.functions = ctx.functions
+        self.call_sites = 0
+        self.paths = 0
+        self.got = []
+        self.floors = {}
+
+    def ob(self, rule, key, ok, where='', what='', detail='', fp=None):
+        self.got.append((rule, key, ok, where, what, detail))
+        return ok
+
+    def note(self, t):
+        pass
+
+    def floor(self, *a):
+        pass
+
+    def loc(self, m, n):
+        return self.ctx.loc(m, n)
+
+    def fn(self, spec):
+        return self.ctx.fn(spec)
+
+
 def load_known():
     try:
         with open(KNOWN_FILE) as f:
